@@ -30,7 +30,7 @@ fn random_literal(rng: &mut Rng) -> Expr {
 }
 
 /// apply one edit; returns a description or None when the edit found no site
-fn perturb(p: &mut Program, rng: &mut Rng) -> Option<&'static str> {
+fn perturb(p: &mut Program, rng: &mut Rng, typed_globals: &[BId]) -> Option<&'static str> {
     let kind = rng.below(10);
     if kind == 0 {
         // move a use out of its scope / before its declaration
@@ -93,8 +93,17 @@ fn perturb(p: &mut Program, rng: &mut Rng) -> Option<&'static str> {
         return None;
     }
     let target = rng.below(total);
-    let lit = random_literal(rng);
-    let lit2 = random_literal(rng);
+    // replacement operands: literals or (half of the time) global constants of the four scalar types -
+    // variables have larger inference classes than literals
+    let pick = |rng: &mut Rng| -> Expr {
+        if !typed_globals.is_empty() && rng.chance(1, 2) {
+            Expr::Var(*rng.pick(typed_globals))
+        } else {
+            random_literal(rng)
+        }
+    };
+    let lit = pick(rng);
+    let lit2 = pick(rng);
     let r = rng.next();
     let mut seen = 0usize;
     map_exprs_program(p, &mut |e: &mut Expr| {
@@ -181,6 +190,15 @@ const TEMPLATES: &[(&str, Option<&str>, &str)] = &[
         Some("closure_writes_captured_variable_at_two_types"),
         "start :: fn do\n    cell := Maybe.None\n    put :: fn x do\n        cell = Maybe.Just x\n    end\n    put(1)\n    put(\"s\")\n    case cell do\n        Just v -> print(v + 1) end\n        None -> print(0) end\n    end\nend\n",
     ),
+    // ill-typed programs whose mismatch is only visible through inference (normally rejected; if a tree
+    // accepts them, running them shows the dynamic type error)
+    ("deferred `a - b` applied to an int and a str variable", None, "sub :: fn a, b ->\n    a - b\nend\n\nstart :: fn do\n    x := 1\n    y := \"s\"\n    print(sub(x, y))\nend\n"),
+    ("deferred `a + 1` applied to a str variable after an int use", None, "inc :: fn a ->\n    a + 1\nend\n\nstart :: fn do\n    print(inc(1))\n    s :: \"x\"\n    print(inc(s))\nend\n"),
+    ("deferred field access applied to a blob variable without the field", None, "Q :: blob {\n    y: int,\n}\n\nget :: fn p ->\n    p.x + 1\nend\n\nstart :: fn do\n    q := Q { y: 2 }\n    print(get(q))\nend\n"),
+    ("deferred `a < b` applied to bool variables", None, "lt :: fn a, b ->\n    a < b\nend\n\nstart :: fn do\n    t := true\n    f := false\n    print(lt(t, f))\nend\n"),
+    ("deferred `-a` applied to a str variable", None, "neg :: fn a ->\n    -a\nend\n\nstart :: fn do\n    s := \"abc\"\n    print(neg(s))\nend\n"),
+    ("deferred call applied to an int variable", None, "app :: fn f: fn int -> int, x: int -> int do\n    f(x)\nend\n\nstart :: fn do\n    n := 3\n    g := n\n    print(app(g, 1))\nend\n"),
+    ("deferred tuple index applied to a shorter tuple variable", None, "third :: fn t ->\n    t[2]\nend\n\nstart :: fn do\n    p := (1, 2)\n    print(third(p))\nend\n"),
     ("identity used at two types (sound)", None, "id :: fn x -> x end\n\nstart :: fn do\n    print(id(1) + 1)\n    print(id(\"a\") + \"b\")\nend\n"),
     ("list of Maybe from library and source (sound)", None, "start :: fn do\n    l := [1, 2]\n    m := [list.get(l, 0), Maybe.None, Maybe.Just 3]\n    print(m)\nend\n"),
     (
@@ -291,10 +309,17 @@ impl Check for C02 {
         }
         let p0 = gen::generate(&mut rng, Cfg::general(2));
         let mut p = p0.clone();
+        // four global constants, one per scalar type, as replacement operands
+        let mut typed_globals = Vec::new();
+        for (hint, ty, init) in [("zgi", Ty::Int, Expr::Int(1)), ("zgs", Ty::Str, Expr::Str("s".into())), ("zgb", Ty::Bool, Expr::Bool(true)), ("zgf", Ty::Float, Expr::Float(1.5, "1.5".into()))] {
+            let b = p.new_binder(hint, ty, false, BKind::Global);
+            p.items.insert(0, Item::Global { b, init });
+            typed_globals.push(b);
+        }
         let nedits = 1 + rng.below(3);
         let mut edits = Vec::new();
         for _ in 0..nedits {
-            if let Some(e) = perturb(&mut p, &mut rng) {
+            if let Some(e) = perturb(&mut p, &mut rng, &typed_globals) {
                 edits.push(e);
             }
         }
